@@ -9,7 +9,9 @@ SPEC = {
     'theorems': ['C27_main_only_valid', 'C27_served_was_delivered',
                  'C27_rejected_no_effect_refuted', 'C27_rejected_no_effect_partial', 'C27_rejected_no_effect_nonvacuous',
                  'C27_no_poison_refuted', 'C27_no_poison_partial', 'C27_no_poison_nonvacuous',
-                 'C27_rejected_invisible_refuted', 'C27_no_panic_refuted', 'C27_valid_refines_C25'],
+                 'C27_rejected_invisible_refuted', 'C27_rejected_invisible_partial', 'C27_rejected_invisible_nonvacuous',
+                 'C27_orphan_siblings_connected', 'C27_no_panic_refuted',
+                 'C27_valid_refines_C25', 'C27_valid_refines_nonvacuous'],
     'allowed_axioms': [],
     'shard': 16,
     'rule': 'a factory test node builds an executed block tree (trunk t1..t14, branch S off t11 with a heavy s13, branch R '
@@ -22,9 +24,10 @@ SPEC = {
             'roots, block time and emptiness). Each history goes to a fresh node (memdb, every 8th leveldb) through '
             'BlockChain.ProcessBlock on the broadcast / sync / download path: A mutant at the tip then the genuine block '
             'then its child; B mutant as unexecuted side block, genuine block, branch overtakes; C mutant heavy enough to '
-            'reorganise; D mutant waiting as orphan; E orphan cascade; H download-path node deleted under its child; '
+            'reorganise; D mutant waiting as orphan in front of / behind the genuine block and its child (new-hash mutants: '
+            'guarded, ProcessOrphans must drop them and go on); E orphan cascade; H download-path node deleted under its child; '
             '(kinds guarded/...-refused-header: wrong height / unknown parent, never executed); F guarded random histories (genuine blocks in near-order with gaps and re-deliveries plus new-hash mutants '
-            'below the margin, never orphaned); G unrestricted random histories. Observed per delivery: (isMain, '
+            'below the margin, in half of the histories waiting in the orphan pool for t2); G unrestricted random histories. Observed per delivery: (isMain, '
             'isOrphan, error class incl. panic), tip, its total difficulty, body served under the delivered hash; at the '
             'end hash at every height, body served under every hash of the case, GetTx of every known transaction, '
             'genesis account at the tip state vs the factory. kinds are prefixed guarded/ (inputs inside the guards of '
@@ -48,14 +51,19 @@ SPEC = {
         'solo consensus: CheckBlock only refuses empty blocks and a block time below the parent\'s',
     ],
     'manifest': {
-        'level_text': 'partial: the unchanged node violates the property in four recorded ways (stored body + index node of a '
+        'level_text': 'partial: the node violates the property in three recorded ways (stored body + index node of a '
                       'failed block poison the genuine block; a failing reorganisation is not rolled back; nil fork after '
-                      'DelNode panics; ProcessOrphans stops at the first failing orphan). Proved for all histories: the best '
-                      'chain only holds blocks whose stored/served body passed the checks, and every served body was delivered '
-                      'under that hash; proved per delivery: a rejected block that cannot start a reorganisation leaves the '
-                      'best chain unchanged; a valid block whose hash was not seen before is never answered "exists" and its '
-                      'body is served; with only valid deliveries the model coincides with the chain-selection model of C25 (so C25_converges applies). The Go node agrees with the model on every generated history, and outside the four '
-                      'signatures with the reference "rejected blocks never arrived"',
+                      'DelNode panics); a fourth (ProcessOrphans stopped at the first refused orphan) is repaired in chain33 '
+                      'and modelled as repaired. Proved for all histories: the best chain only holds blocks whose '
+                      'stored/served body passed the checks, and every served body was delivered under that hash; rejected '
+                      'deliveries that are below the reorganisation margin, share their hash with no valid delivery and are '
+                      'nobody\'s parent are as if they had never arrived (same best chain as the run over the valid deliveries '
+                      'only - on any path, in any position of the orphan pool); proved per delivery: a rejected block that '
+                      'cannot start a reorganisation leaves the best chain unchanged; a valid block whose hash was not seen '
+                      'before is never answered "exists" and its body is served; with only valid deliveries and consistent '
+                      'heights the model coincides with the chain-selection model of C25 (so C25_converges applies). The Go '
+                      'node agrees with the model on every generated history, and outside the three signatures with the '
+                      'reference "rejected blocks never arrived"',
         'level_note': 'validity is an oracle; hashes/bodies abstract; fork choice as in C25; finalizer static; capacity '
                       'limits not reached',
         'technique': 'Coq proof (invariants by induction over delivery histories; refutation witnesses by computation) + '
